@@ -116,6 +116,7 @@ class AXILMaster(Multi):
         self._nb = 0
         self._nr = 0
         self._rbeats = []
+        self.extra_responses = []     # responses that no request of this master is waiting for
         Multi.__init__(self, [self.b, self.r, self.aw, self.w, self.ar])
 
     def _span(self, o):
@@ -133,6 +134,10 @@ class AXILMaster(Multi):
         # harvest responses
         while self._nb < len(self.b.got):
             c, tok = self.b.got[self._nb]
+            if self._nb >= len(self.widx):
+                self.extra_responses.append(("b", c, tok))
+                self._nb += 1
+                continue
             p = self.widx[self._nb]
             self.result[p] = (c, None, tok[0][0] if not self.full else self._field(self.bus.b, tok, "resp"), tok)
             self.done[p] = True
@@ -141,6 +146,9 @@ class AXILMaster(Multi):
         while self._nr < len(self.r.got):
             c, tok = self.r.got[self._nr]
             self._nr += 1
+            if self.r_done >= len(self.ridx):
+                self.extra_responses.append(("r", c, tok))
+                continue
             if self.full:
                 self._rbeats.append((c, tok))
                 if tok[3]:      # last
@@ -184,6 +192,7 @@ class AXILMemSlave(Multi):
         self.pending_w = 0
         self.pending_r = 0
         self.silent = silent or (lambda kind, n: False)     # swallow the n-th response of a kind (fault injection)
+        self.mem_mask = None            # if set: memory offset = (addr - base) & mem_mask
         self.aw = bench.Consumer(bus.aw, sched["aw"], until=until, gate=lambda: self._awq() < Q, wait_valid=wait_valid)
         self.w = bench.Consumer(bus.w, sched["w"], until=until, gate=lambda: self._wq() < Q, wait_valid=wait_valid)
         self.ar = bench.Consumer(bus.ar, sched["ar"], until=until, gate=lambda: self._arq() < Q, wait_valid=wait_valid)
@@ -196,6 +205,12 @@ class AXILMemSlave(Multi):
         self.nresp_w = 0
         self.nresp_r = 0
         Multi.__init__(self, [self.aw, self.w, self.ar, self.b, self.r])
+
+    def _off(self, addr):
+        o = addr - self.base
+        if self.mem_mask is not None:
+            o &= self.mem_mask
+        return (o // self.nb) * self.nb
 
     def _awq(self):
         return len(self.aw.got) - len(self.b.sent)
@@ -225,7 +240,7 @@ class AXILMemSlave(Multi):
             if self.err(addr):
                 resp = RESP_SLVERR
             else:
-                self.mem.write(((addr - self.base) // self.nb) * self.nb, self.nb, data, strb)
+                self.mem.write(self._off(addr), self.nb, data, strb)
             self.writes.append((max(ca, cw), addr, data, strb))
             if not self.silent("w", self.nresp_w):
                 self.b.tokens.append(((resp,), (), 0, 0))
@@ -235,7 +250,7 @@ class AXILMemSlave(Multi):
             self._nar += 1
             addr = ta[0][0]
             resp = RESP_SLVERR if self.err(addr) else RESP_OKAY
-            data = self.mem.read(((addr - self.base) // self.nb) * self.nb, self.nb) if resp == RESP_OKAY else 0
+            data = self.mem.read(self._off(addr), self.nb) if resp == RESP_OKAY else 0
             self.reads.append((ca, addr))
             if not self.silent("r", self.nresp_r):
                 self.r.tokens.append(((resp, data), (), 0, 0))
